@@ -255,6 +255,17 @@ func CallsReuse(w *wl.Workload, mo MapOrder, attSrc func(a *wl.Attachment) io.Re
 		}
 		return mw.WriteHeader(&mcap.Header{Profile: w.Profile, Library: w.Library})
 	}}}
+	// a channel id the workload never registers: a message on it is refused by the writer
+	unusedChannel := uint16(65533)
+	for again := true; again; {
+		again = false
+		for _, o := range w.Ops {
+			if o.C != nil && o.C.ID == unusedChannel {
+				unusedChannel--
+				again = true
+			}
+		}
+	}
 	for i := range w.Ops {
 		o := w.Ops[i]
 		switch {
@@ -291,6 +302,13 @@ func CallsReuse(w *wl.Workload, mo MapOrder, attSrc func(a *wl.Attachment) io.Re
 			}})
 		case o.M != nil:
 			calls = append(calls, Call{"WriteMessage", i, func(mw *mcap.Writer) error {
+				if reuse && i%3 == 1 {
+					// a call the writer refuses (the channel was never registered): it returns an error, and the
+					// caller carries on - nothing of the refused call may show in the file or in the statistics
+					if err := mw.WriteMessage(&mcap.Message{ChannelID: unusedChannel, Sequence: 0xDEAD, LogTime: 0, PublishTime: 7, Data: []byte("refused")}); err == nil {
+						return fmt.Errorf("harness: WriteMessage on channel %d, which was never registered, returned nil", unusedChannel)
+					}
+				}
 				if reuse {
 					rMessage.ChannelID, rMessage.Sequence, rMessage.LogTime, rMessage.PublishTime = o.M.ChannelID, o.M.Sequence, o.M.LogTime, o.M.PublishTime
 					rMessage.Data = append(rMessage.Data[:0], o.M.Data...)
